@@ -2,211 +2,483 @@ import NmlVerif.Proofs.Include
 /-!
 # C06 — include resolution merges every included component once and always terminates
 
-Model: `NmlVerif.Include` (`Model/Include.lean`), tied to `neuroml/loaders.py` + `neuroml/utils.py` by the
-correspondence check `harness/props/c06.py` (generated include graphs on disk, real loader vs `Drivers/C06.lean`).
+Model: `NmlVerif.Include` (`Model/Include.lean`), tied to `neuroml/loaders.py` + `neuroml/utils.py` +
+`neuroml/hdf5/NeuroMLHdf5Parser.py` by the correspondence check `harness/props/c06.py` (generated include
+graphs on disk, real loader vs `Drivers/C06.lean`: result document in order, and the log of files parsed).
+
+`sh : Bool` selects how the includes of the XML embedded in an HDF5 file are resolved: `false` is today's code
+(the HDF5 parser starts an `already_included` list of its own), `true` the proposed repair
+`fixes/C06-hdf5-shared-include-list.patch`.  Every theorem that needs it takes `h5 : sh = false → H5Leaf fs`:
+for the repaired code (`sh = true`) this is no hypothesis at all, for today's code it restricts the statement to
+trees whose HDF5 files include nothing; the `…_today_witness` theorems show the restriction is necessary.
+
+Clause ↔ theorem
+* terminates for every include graph ............ `c06_terminates`, `c06_terminates_string`
+* union of the components of all reachable files . `c06_doc_by_log` + `c06_log_eq_reachable` (exact list), `c06_union(_string)` (key sets) — all hypothesis-free
+* a file contributes once however many paths ..... `c06_log_nodup(_string)`, `c06_idless_once(_string)`, `c06_idless_count`, `c06_marked_eq_reachable`
+* an id once per list ............................ `c06_nodup`, `c06_nodup_file`
+* order (not in the statement; the code fixes it) . `c06_log_dfs`, `c06_doc_by_log`
+* hrefs resolve against the including file's dir .. `c06_resolves_against_including_dir`, `c06_absolute_href`
+* same result from any such working directory .... `c06_cwd_independent`, `c06_cwd_independent_file`, `c06_cwd_independent_string`
+* the tree under test (translator) ............... `Props/C06Tree.lean`: `c06_gen_same`, `c06_tree`
 -/
 namespace NmlVerif.Include
 
 theorem unv_le_length (U al : List Path) : unv U al ≤ U.length := by
   unfold unv; exact List.countP_le_length
 
+/-! ## termination -/
+
 /-- **Termination, every include graph** (chains, diamonds, self loops, cycles; missing files and bad
     extensions included): with `U` any list containing every path an include can resolve to, reading the
-    entry file with fuel `|U| + 1` never runs out of fuel. HDF5 files are leaves (`H5Leaf`). -/
-theorem c06_terminates (fs : FS) (cwd : Path) (U : List Path) (hclosed : ClosedIn fs cwd U) (h5 : H5Leaf fs)
-    (p : Path) : readFile fs cwd (U.length + 1) p ≠ .outOfFuel := by
-  have key : ∀ al, visit fs cwd (U.length + 1) p al ≠ .outOfFuel := by
+    entry file with fuel `|U| + 1` never runs out of fuel. -/
+theorem c06_terminates (sh : Bool) (fs : FS) (cwd : Path) (U : List Path) (hclosed : ClosedIn fs cwd U)
+    (h5 : sh = false → H5Leaf fs) (p : Path) : readFile sh fs cwd (U.length + 1) p ≠ .outOfFuel := by
+  have key : ∀ al, visit sh fs cwd (U.length + 1) p al ≠ .outOfFuel := by
     intro al he
-    have := (visit_terminates fs cwd U hclosed h5 (U.length + 1) p al
+    have := (visit_terminates sh fs cwd U hclosed h5 (U.length + 1) p al
       (by have := unv_le_length U al; omega)).1
     rw [he] at this
     simp [Res.isOut] at this
   unfold readFile
   split
   · split
-    · intro h; cases h
-    · intro he; exact key [] he
+    · split
+      · intro h; cases h
+      · intro he; exact key _ he
+    · split
+      · intro h; cases h
+      · intro he; exact key _ he
   · exact key _
 
-/-- more fuel never changes an answer that was not `outOfFuel` is not needed: the theorem above is stated for
-    the fuel the driver uses. The string entry point: -/
-theorem c06_terminates_string (fs : FS) (cwd base : Path) (U : List Path) (hclosed : ClosedIn fs cwd U)
-    (h5 : H5Leaf fs) (hrefs : List (List String)) (comps : List Comp)
+theorem c06_terminates_string (sh : Bool) (fs : FS) (cwd base : Path) (U : List Path) (hclosed : ClosedIn fs cwd U)
+    (h5 : sh = false → H5Leaf fs) (hrefs : List (List String)) (comps : List Comp)
     (hU : ∀ h ∈ hrefs, resolveHref fs cwd base h ∈ U) :
-    readString fs cwd base (U.length + 1) hrefs comps ≠ .outOfFuel := by
+    readString sh fs cwd base (U.length + 1) hrefs comps ≠ .outOfFuel := by
   unfold readString
   intro he
-  have h := (fold_ok fs cwd base U (visit fs cwd (U.length + 1)) (U.length + 1)
-    (fun p al hlt => visit_terminates fs cwd U hclosed h5 _ p al hlt)
+  have h := (fold_ok sh fs cwd base U (visit sh fs cwd (U.length + 1)) (U.length + 1)
+    (fun p al hlt => visit_terminates sh fs cwd U hclosed h5 _ p al hlt)
     (by
-      intro _ q hk
+      intro hsh _ q hk
       cases hq : fs q with
       | none => simp [visit, hq, Res.isOut]
-      | some qf => rw [visit_leaf fs cwd U.length q qf [] hq (h5 q qf hq hk)]; rfl)
-    hrefs hU [] comps (by have := unv_le_length U []; omega)).1
+      | some qf => rw [visit_leaf sh fs cwd U.length q qf [] hq (h5 hsh q qf hq hk)]; rfl)
+    hrefs hU [] [] comps (by have := unv_le_length U []; omega)).1
   rw [he] at h
   simp [Res.isOut] at h
 
-/-- **Union.** When reading an XML entry file returns a document, its `(list, id)` keys are exactly the keys
-    of the files reachable from the entry through include links (each key once: `c06_nodup`). -/
-theorem c06_union (fs : FS) (cwd : Path) (h5 : H5Leaf fs) (fuel : Nat) (p : Path) (al' : List Path)
-    (doc : List Comp) (h : visit fs cwd fuel p [p] = .ok al' doc) :
-    ∀ k, k ∈ keys doc ↔ ∃ q, Reach fs cwd p q ∧ k ∈ fileKeys fs q := by
-  have V := visit_spec fs cwd h5 fuel p [p] al' doc h
-  have hp : p ∈ al' := V.mono p (by simp)
-  have hclosed : ∀ q ∈ al', ∀ i ∈ incs fs cwd q, i ∈ al' := by
-    intro q hq i hi
-    by_cases e : q = p
-    · subst e; exact V.closedP i hi
-    · exact V.closedN q ⟨hq, by simp [e]⟩ i hi
-  have hreach : ∀ q, Reach fs cwd p q → q ∈ al' := by
-    intro q r
-    induction r with
-    | refl => exact hp
-    | @step q' file h' _ hq hh ih =>
-      exact hclosed q' ih _ (by simp only [incs, hq, List.mem_map]; exact ⟨h', hh, rfl⟩)
-  intro k
-  rw [V.keysIff k]
-  constructor
-  · rintro (hk | ⟨q, hq, hk⟩)
-    · exact ⟨p, Reach.refl p, hk⟩
-    · exact ⟨q, V.reach q hq, hk⟩
-  · rintro ⟨q, r, hk⟩
-    by_cases e : q = p
-    · subst e; exact Or.inl hk
-    · exact Or.inr ⟨q, ⟨hreach q r, by simp [e]⟩, hk⟩
+/-- the full termination clause, as a statement about one way of handling HDF5 includes -/
+def c06_terminates_full (sh : Bool) : Prop :=
+  ∀ (fs : FS) (cwd : Path) (U : List Path), ClosedIn fs cwd U → ∀ p, readFile sh fs cwd (U.length + 1) p ≠ .outOfFuel
 
-/-- the files marked as included are exactly the reachable ones (each is read once: a marked file is skipped) -/
-theorem c06_marked_eq_reachable (fs : FS) (cwd : Path) (h5 : H5Leaf fs) (fuel : Nat) (p : Path)
-    (al' : List Path) (doc : List Comp) (h : visit fs cwd fuel p [p] = .ok al' doc) :
+/-- the repaired code terminates on every include graph, HDF5 files with includes and cycles through them included -/
+theorem c06_terminates_repaired : c06_terminates_full true :=
+  fun fs cwd U hc p => c06_terminates true fs cwd U hc (fun h => by cases h) p
+
+/-! ## what a successful read returns -/
+
+/-- **The document is the left-to-right merge of the files in the order they were read** (every entry point
+    of the file kind; no hypothesis on the include graph, on HDF5 files or on `sh`): the log starts with the
+    entry file, and the document is `add_all_to_document` applied file after file to the entry file's own
+    components (which, for an HDF5 entry file, have themselves been merged into an empty document). -/
+theorem c06_doc_by_log (sh : Bool) (fs : FS) (cwd : Path) (fuel : Nat) (p : Path) (al' log : List Path)
+    (doc : List Comp) (h : readFile sh fs cwd fuel p = .ok al' log doc) :
+    ∃ file rest, fs p = some file ∧ log = p :: rest ∧
+      doc = addAll (compsOfAll fs rest) (if entryIsH5 p then addAll file.comps [] else file.comps) := by
+  unfold readFile at h
+  by_cases he : entryIsH5 p = true
+  · simp only [he, if_true] at h ⊢
+    have key : ∀ al a l d, visit sh fs cwd fuel p al = .ok a l d →
+        ∃ file rest, fs p = some file ∧ l = p :: rest ∧
+          addAll d [] = addAll (compsOfAll fs rest) (addAll file.comps []) := by
+      intro al a l d hv
+      obtain ⟨file, rest, hf, hl, hd⟩ := visit_doc sh fs cwd fuel p al a l d hv
+      exact ⟨file, rest, hf, hl, by rw [hd, addAll_assoc]⟩
+    cases sh with
+    | true =>
+      simp only [if_true] at h
+      cases hv : visit true fs cwd fuel p [p] with
+      | ok a l d =>
+        simp only [hv] at h; cases h
+        exact key _ _ _ _ hv
+      | outOfFuel => simp [hv] at h
+      | missing => simp [hv] at h
+      | badExt => simp [hv] at h
+    | false =>
+      simp only [Bool.false_eq_true, if_false] at h
+      cases hv : visit false fs cwd fuel p [] with
+      | ok a l d =>
+        simp only [hv] at h; cases h
+        exact key _ _ _ _ hv
+      | outOfFuel => simp [hv] at h
+      | missing => simp [hv] at h
+      | badExt => simp [hv] at h
+  · simp only [he, Bool.false_eq_true, if_false] at h ⊢
+    exact visit_doc sh fs cwd fuel p [p] al' log doc h
+
+/-- string entry point: the string's own components, then the files read, in order -/
+theorem c06_doc_by_log_string (sh : Bool) (fs : FS) (cwd base : Path) (fuel : Nat)
+    (hrefs : List (List String)) (comps : List Comp) (al' log : List Path) (doc : List Comp)
+    (h : readString sh fs cwd base fuel hrefs comps = .ok al' log doc) :
+    doc = addAll (compsOfAll fs log) comps := by
+  unfold readString at h
+  obtain ⟨new, hl, hd⟩ := fold_doc sh fs cwd base (visit sh fs cwd fuel) (visit_doc sh fs cwd fuel)
+    hrefs [] [] comps al' log doc h
+  simp only [List.nil_append] at hl
+  rw [hl, hd]
+
+/-- **Every file is read at most once** (XML entry): the log has no duplicates. -/
+theorem c06_log_nodup (sh : Bool) (fs : FS) (cwd : Path) (h5 : sh = false → H5Leaf fs) (fuel : Nat) (p : Path)
+    (al' log : List Path) (doc : List Comp) (h : visit sh fs cwd fuel p [p] = .ok al' log doc) : log.Nodup := by
+  have V := visit_spec sh fs cwd h5 fuel p [p] al' log doc h
+  obtain ⟨new, rfl, F⟩ := V.shape
+  exact List.nodup_cons.mpr ⟨fun hm => F.notin p hm (by simp), F.nodup⟩
+
+/-- the marks are the log (entry first, then latest first) -/
+theorem c06_marks_eq_log (sh : Bool) (fs : FS) (cwd : Path) (h5 : sh = false → H5Leaf fs) (fuel : Nat) (p : Path)
+    (al' log : List Path) (doc : List Comp) (h : visit sh fs cwd fuel p [p] = .ok al' log doc) :
+    al' = log.reverse := by
+  have V := visit_spec sh fs cwd h5 fuel p [p] al' log doc h
+  obtain ⟨new, rfl, F⟩ := V.shape
+  rw [F.marks]; simp
+
+/-- the files marked as included are exactly the reachable ones -/
+theorem c06_marked_eq_reachable (sh : Bool) (fs : FS) (cwd : Path) (h5 : sh = false → H5Leaf fs) (fuel : Nat)
+    (p : Path) (al' log : List Path) (doc : List Comp) (h : visit sh fs cwd fuel p [p] = .ok al' log doc) :
     ∀ q, q ∈ al' ↔ Reach fs cwd p q := by
-  have V := visit_spec fs cwd h5 fuel p [p] al' doc h
+  have V := visit_spec sh fs cwd h5 fuel p [p] al' log doc h
+  have hal : al' = log.reverse := c06_marks_eq_log sh fs cwd h5 fuel p al' log doc h
   intro q
   constructor
   · intro hq
-    by_cases e : q = p
-    · subst e; exact Reach.refl _
-    · exact V.reach q ⟨hq, by simp [e]⟩
+    exact V.reach q (by rw [hal] at hq; simpa using hq)
   · intro r
     induction r with
-    | refl => exact V.mono p (by simp)
+    | refl => obtain ⟨new, _, F⟩ := V.shape; exact F.mono p (by simp)
     | @step q' file h' _ hq hh ih =>
       have hi : resolveHref fs cwd q'.dropLast h' ∈ incs fs cwd q' := by
         simp only [incs, hq, List.mem_map]; exact ⟨h', hh, rfl⟩
-      by_cases e : q' = p
+      have hq'log : q' ∈ log := by rw [hal] at ih; simpa using ih
+      obtain ⟨new, hlog, _⟩ := V.shape
+      rw [hlog] at hq'log
+      rcases List.mem_cons.mp hq'log with e | e
       · subst e; exact V.closedP _ hi
-      · exact V.closedN q' ⟨ih, by simp [e]⟩ _ hi
+      · exact V.closedN q' (by rw [hlog]; exact e) _ hi
 
-/-- string entry point (`base_path` given): the document's own components plus everything reachable from
-    its includes -/
-theorem c06_union_string (fs : FS) (cwd base : Path) (h5 : H5Leaf fs) (fuel : Nat)
-    (hrefs : List (List String)) (comps : List Comp) (al' : List Path) (doc : List Comp)
-    (h : readString fs cwd base fuel hrefs comps = .ok al' doc) :
+/-- **Every reachable file is read, and nothing else** — no hypothesis: any include graph, HDF5 files with
+    includes of their own, either way of resolving them (`sh`).  The log enumerates the files reachable from the
+    entry through include links.  (That it does so without repetition is `c06_log_nodup`.) -/
+theorem c06_log_eq_reachable (sh : Bool) (fs : FS) (cwd : Path) (fuel : Nat)
+    (p : Path) (al' log : List Path) (doc : List Comp) (h : visit sh fs cwd fuel p [p] = .ok al' log doc) :
+    ∀ q, q ∈ log ↔ Reach fs cwd p q := by
+  have W := visit_wspec sh fs cwd fuel p [p] al' log doc h
+  intro q
+  constructor
+  · exact W.reach q
+  · intro r
+    induction r with
+    | refl => exact W.head
+    | @step q' file h' _ hq hh ih =>
+      have hi : resolveHref fs cwd q'.dropLast h' ∈ incs fs cwd q' := by
+        simp only [incs, hq, List.mem_map]; exact ⟨h', hh, rfl⟩
+      rcases W.closed q' ih _ hi with e | e
+      · exact e
+      · have : resolveHref fs cwd q'.dropLast h' = p := by simpa using e
+        rw [this]; exact W.head
+
+/-- **Order.** The log is the depth-first preorder of the include graph (`dfsList`, a plain graph traversal
+    that knows nothing about documents), started at the entry file with the entry file marked. Together with
+    `c06_doc_by_log` this fixes the order of every member list of the result. -/
+theorem c06_log_dfs (sh : Bool) (fs : FS) (cwd : Path) (h5 : sh = false → H5Leaf fs) (fuel : Nat)
+    (p : Path) (al' log : List Path) (doc : List Comp) (h : visit sh fs cwd fuel p [p] = .ok al' log doc) :
+    log = p :: (dfsList (incs fs cwd) fuel (incs fs cwd p) [p]).2 := by
+  obtain ⟨rest, hl, hd⟩ := visit_dfs sh fs cwd h5 fuel p [p] al' log doc h
+  rw [hl, hd]
+
+/-- **Components without an id: each reachable file contributes its own exactly once.** The id-less
+    components of the result are those of the files of the log, file after file in document order — and the
+    log is a duplicate-free enumeration of the reachable files (`c06_log_nodup`, `c06_log_eq_reachable`). -/
+theorem c06_idless_once (sh : Bool) (fs : FS) (cwd : Path) (fuel : Nat) (p : Path) (al' log : List Path)
+    (doc : List Comp) (h : readFile sh fs cwd fuel p = .ok al' log doc) :
+    doc.filter idless = (compsOfAll fs log).filter idless := by
+  obtain ⟨file, rest, hf, rfl, rfl⟩ := c06_doc_by_log sh fs cwd fuel p al' log doc h
+  rw [filter_idless_addAll]
+  have e : compsOfAll fs (p :: rest) = file.comps ++ compsOfAll fs rest := by simp [compsOfAll, compsOf, hf]
+  rw [e, List.filter_append]
+  congr 1
+  split
+  · rw [filter_idless_addAll]; simp
+  · rfl
+
+/-- the same as a count: an id-less component occurs in the result as often as it occurs in the reachable
+    files, each file counted once -/
+theorem c06_idless_count (sh : Bool) (fs : FS) (cwd : Path) (fuel : Nat) (p : Path) (al' log : List Path)
+    (doc : List Comp) (h : readFile sh fs cwd fuel p = .ok al' log doc) (c : Comp) (hc : idless c = true) :
+    doc.count c = (log.map (fun q => (compsOf fs q).count c)).sum := by
+  have h1 : doc.count c = (doc.filter idless).count c := by
+    rw [List.count_filter hc]
+  rw [h1, c06_idless_once sh fs cwd fuel p al' log doc h, List.count_filter hc]
+  clear h h1
+  induction log with
+  | nil => simp [compsOfAll]
+  | cons q l ih =>
+    have : compsOfAll fs (q :: l) = compsOf fs q ++ compsOfAll fs l := by simp [compsOfAll]
+    rw [this, List.count_append, ih]; simp
+
+theorem c06_idless_once_string (sh : Bool) (fs : FS) (cwd base : Path) (fuel : Nat)
+    (hrefs : List (List String)) (comps : List Comp) (al' log : List Path) (doc : List Comp)
+    (h : readString sh fs cwd base fuel hrefs comps = .ok al' log doc) :
+    doc.filter idless = comps.filter idless ++ (compsOfAll fs log).filter idless := by
+  rw [c06_doc_by_log_string sh fs cwd base fuel hrefs comps al' log doc h, filter_idless_addAll]
+
+def fileKeys (fs : FS) (q : Path) : List (String × Ident) := keys (compsOf fs q)
+
+theorem mem_keys_compsOfAll (fs : FS) (l : List Path) (k : String × Ident) :
+    k ∈ keys (compsOfAll fs l) ↔ ∃ q ∈ l, k ∈ fileKeys fs q := by
+  simp only [keys, compsOfAll, fileKeys, List.mem_map, List.mem_flatMap]
+  constructor
+  · rintro ⟨c, ⟨q, hq, hc⟩, rfl⟩; exact ⟨q, hq, c, hc, rfl⟩
+  · rintro ⟨q, hq, c, hc, rfl⟩; exact ⟨c, ⟨q, hq, hc⟩, rfl⟩
+
+/-- **Union.** When reading an XML entry file returns a document, its `(list, id)` keys are exactly the keys
+    of the files reachable from the entry through include links (no hypothesis on the graph or on `sh`). -/
+theorem c06_union (sh : Bool) (fs : FS) (cwd : Path) (fuel : Nat) (p : Path)
+    (al' log : List Path) (doc : List Comp) (h : visit sh fs cwd fuel p [p] = .ok al' log doc) :
+    ∀ k, k ∈ keys doc ↔ ∃ q, Reach fs cwd p q ∧ k ∈ fileKeys fs q := by
+  have hr := c06_log_eq_reachable sh fs cwd fuel p al' log doc h
+  obtain ⟨file, rest, hf, hl, hd⟩ := visit_doc sh fs cwd fuel p [p] al' log doc h
+  intro k
+  rw [hd, mem_keys_addAll, mem_keys_compsOfAll]
+  have hpk : fileKeys fs p = keys file.comps := by simp [fileKeys, compsOf, hf]
+  constructor
+  · rintro (hk | ⟨q, hq, hk⟩)
+    · exact ⟨p, Reach.refl p, by rw [hpk]; exact hk⟩
+    · exact ⟨q, (hr q).mp (by rw [hl]; simp [hq]), hk⟩
+  · rintro ⟨q, r, hk⟩
+    have hq := (hr q).mpr r
+    rw [hl] at hq
+    rcases List.mem_cons.mp hq with e | e
+    · subst e; exact Or.inl (by rw [← hpk]; exact hk)
+    · exact Or.inr ⟨q, e, hk⟩
+
+/-- string entry point (`base_path` given), no hypothesis: the files read are those reachable from the string's
+    includes, and the keys of the result are the string's own plus theirs -/
+theorem c06_union_string (sh : Bool) (fs : FS) (cwd base : Path) (fuel : Nat)
+    (hrefs : List (List String)) (comps : List Comp) (al' log : List Path) (doc : List Comp)
+    (h : readString sh fs cwd base fuel hrefs comps = .ok al' log doc) :
+    (∀ q, q ∈ log ↔ ∃ h ∈ hrefs, Reach fs cwd (resolveHref fs cwd base h) q) ∧
     ∀ k, k ∈ keys doc ↔ k ∈ keys comps ∨ ∃ q, (∃ h ∈ hrefs, Reach fs cwd (resolveHref fs cwd base h) q) ∧ k ∈ fileKeys fs q := by
+  have hd := c06_doc_by_log_string sh fs cwd base fuel hrefs comps al' log doc h
   unfold readString at h
-  have hleaf : ∀ q qf a a' sub, fs q = some qf → qf.hrefs = [] → visit fs cwd fuel q a = .ok a' sub →
-      a' = a ∧ sub = qf.comps := by
-    intro q qf a a' sub hq hl hv
+  obtain ⟨new, hl, S⟩ := fold_wspec sh fs cwd base (visit sh fs cwd fuel) (visit_wspec sh fs cwd fuel)
+    hrefs [] [] comps al' log doc h
+  simp only [List.nil_append] at hl
+  subst hl
+  have hmem : ∀ q, q ∈ al' → q ∈ log := by
+    intro q hq; rcases S.marks q hq with e | e
+    · cases e
+    · exact e
+  have hreach : ∀ q, q ∈ log ↔ ∃ h ∈ hrefs, Reach fs cwd (resolveHref fs cwd base h) q := by
+    intro q
+    constructor
+    · exact S.reach q
+    · rintro ⟨h', hh', r⟩
+      induction r with
+      | refl => exact hmem _ (S.closedH h' hh')
+      | @step q' file h'' _ hq hh ih =>
+        rcases S.closedN q' ih _ (by simp only [incs, hq, List.mem_map]; exact ⟨h'', hh, rfl⟩) with e | e
+        · exact e
+        · cases e
+  refine ⟨hreach, ?_⟩
+  intro k
+  rw [hd, mem_keys_addAll, mem_keys_compsOfAll]
+  constructor
+  · rintro (hk | ⟨q, hq, hk⟩)
+    · exact Or.inl hk
+    · exact Or.inr ⟨q, (hreach q).mp hq, hk⟩
+  · rintro (hk | ⟨q, hq, hk⟩)
+    · exact Or.inl hk
+    · exact Or.inr ⟨q, (hreach q).mpr hq, hk⟩
+
+/-- string entry point: every file is read at most once -/
+theorem c06_log_nodup_string (sh : Bool) (fs : FS) (cwd base : Path) (h5 : sh = false → H5Leaf fs) (fuel : Nat)
+    (hrefs : List (List String)) (comps : List Comp) (al' log : List Path) (doc : List Comp)
+    (h : readString sh fs cwd base fuel hrefs comps = .ok al' log doc) : log.Nodup := by
+  unfold readString at h
+  have hleaf : ∀ q qf a a' sl sub, fs q = some qf → qf.hrefs = [] → visit sh fs cwd fuel q a = .ok a' sl sub →
+      a' = a ∧ sl = [q] := by
+    intro q qf a a' sl sub hq hl hv
     cases fuel with
     | zero => simp [visit] at hv
-    | succ g => rw [visit_leaf fs cwd g q qf a hq hl] at hv; cases hv; exact ⟨rfl, rfl⟩
-  have hsome : ∀ q a a' sub, visit fs cwd fuel q a = .ok a' sub → ∃ qf, fs q = some qf := by
-    intro q a a' sub hv
+    | succ g => rw [visit_leaf sh fs cwd g q qf a hq hl] at hv; cases hv; exact ⟨rfl, rfl⟩
+  have hsome : ∀ q a a' sl sub, visit sh fs cwd fuel q a = .ok a' sl sub → ∃ qf, fs q = some qf := by
+    intro q a a' sl sub hv
     cases fuel with
     | zero => simp [visit] at hv
     | succ g =>
       cases hq : fs q with
       | none => simp [visit, hq] at hv
       | some qf => exact ⟨qf, rfl⟩
-  have S := fold_spec fs cwd base (visit fs cwd fuel) (visit_spec fs cwd h5 fuel) hleaf hsome h5 hrefs [] comps al' doc h
-  have hclosed : ∀ q ∈ al', ∀ i ∈ incs fs cwd q, i ∈ al' := fun q hq => S.closedN q ⟨hq, by simp⟩
-  intro k
-  rw [S.keysIff k]
-  constructor
-  · rintro (hk | ⟨q, hq, hk⟩)
-    · exact Or.inl hk
-    · exact Or.inr ⟨q, S.reach q hq, hk⟩
-  · rintro (hk | ⟨q, ⟨h', hh', r⟩, hk⟩)
-    · exact Or.inl hk
-    · refine Or.inr ⟨q, ⟨?_, by simp⟩, hk⟩
-      clear hk
-      induction r with
-      | refl => exact S.closedH h' hh'
-      | @step q' file h'' _ hq hh ih =>
-        exact hclosed q' (ih) _ (by simp only [incs, hq, List.mem_map]; exact ⟨h'', hh, rfl⟩)
+  obtain ⟨new, hl, S⟩ := fold_spec sh fs cwd base (visit sh fs cwd fuel) (visit_spec sh fs cwd h5 fuel) hleaf hsome h5
+    hrefs [] [] comps al' log doc h
+  simp only [List.nil_append] at hl
+  subst hl
+  exact S.fresh.nodup
 
-/-- **Once per list.** No `(list, id)` key occurs twice in the result if none does in the entry file itself. -/
-theorem c06_nodup (fs : FS) (cwd base : Path) (rec : Path → List Path → Res) :
-    ∀ (hs : List (List String)) (a : List Path) (d : List Comp) (al' : List Path) (doc : List Comp),
-      (keys d).Nodup → hs.foldl (step fs cwd base rec) (.ok a d) = .ok al' doc → (keys doc).Nodup
-  | [], a, d, al', doc, hd, h => by simp only [List.foldl_nil] at h; cases h; exact hd
-  | h :: hs, a, d, al', doc, hd, hfold => by
-    simp only [List.foldl_cons] at hfold
-    cases hst : step fs cwd base rec (.ok a d) h with
-    | ok a1 d1 =>
-      rw [hst] at hfold
-      refine c06_nodup fs cwd base rec hs a1 d1 al' doc ?_ hfold
-      unfold step at hst
-      simp only at hst
-      split at hst
-      · cases hst; exact hd
-      · split at hst
-        · cases hst
-        · split at hst
-          · cases hst; exact nodup_keys_addAll _ _ hd
-          · rename_i hno; exact (hno _ _ hst).elim
-        · split at hst
-          · cases hst; exact nodup_keys_addAll _ _ hd
-          · rename_i hno; exact (hno _ _ hst).elim
-    | outOfFuel => rw [hst, fold_nonok _ _ _ _ _ (by intro _ _ hh; cases hh)] at hfold; cases hfold
-    | missing => rw [hst, fold_nonok _ _ _ _ _ (by intro _ _ hh; cases hh)] at hfold; cases hfold
-    | badExt => rw [hst, fold_nonok _ _ _ _ _ (by intro _ _ hh; cases hh)] at hfold; cases hfold
+/-- **Once per list.** No `(list, id)` key of a component that has an id occurs twice in the result if none
+    does in the entry file itself (whatever the recursive reader returns). -/
+theorem c06_nodup (sh : Bool) (fs : FS) (cwd base : Path) (rec : Path → List Path → Res) :
+    ∀ (hs : List (List String)) (a l : List Path) (d : List Comp) (al' l' : List Path) (doc : List Comp),
+      (idKeys d).Nodup → hs.foldl (step sh fs cwd base rec) (.ok a l d) = .ok al' l' doc → (idKeys doc).Nodup
+  | [], a, l, d, al', l', doc, hd, h => by simp only [List.foldl_nil] at h; cases h; exact hd
+  | h :: hs, a, l, d, al', l', doc, hd, hfold => by
+    obtain ⟨a1, l1, d1, hst, hrest⟩ := fold_cons_ok_inv hfold
+    refine c06_nodup sh fs cwd base rec hs a1 l1 d1 al' l' doc ?_ hrest
+    rcases step_ok_inv hst with ⟨_, _, _, rfl⟩ | ⟨_, a', sl, sub, _, rfl, _⟩
+    · exact hd
+    · exact nodup_idKeys_addAll _ _ hd
 
-/-- **Working-directory independence.** From two working directories from which no href of any file
-    resolves, every read gives the same result. -/
-theorem c06_cwd_independent (fs : FS) (cwd₁ cwd₂ : Path)
-    (h₁ : ∀ p file, fs p = some file → ∀ h ∈ file.hrefs, fs (norm (cwd₁ ++ h)) = none)
-    (h₂ : ∀ p file, fs p = some file → ∀ h ∈ file.hrefs, fs (norm (cwd₂ ++ h)) = none) :
-    ∀ fuel p al, visit fs cwd₁ fuel p al = visit fs cwd₂ fuel p al := by
+/-- the same for the file entry point; an HDF5 entry file needs no hypothesis (its own components are merged
+    into an empty document first) -/
+theorem c06_nodup_file (sh : Bool) (fs : FS) (cwd : Path) (fuel : Nat) (p : Path) (al' log : List Path)
+    (doc : List Comp) (h : readFile sh fs cwd fuel p = .ok al' log doc)
+    (hd : entryIsH5 p = false → (idKeys (compsOf fs p)).Nodup) : (idKeys doc).Nodup := by
+  obtain ⟨file, rest, hf, _, rfl⟩ := c06_doc_by_log sh fs cwd fuel p al' log doc h
+  apply nodup_idKeys_addAll
+  split
+  · exact nodup_idKeys_addAll _ _ (by simp [idKeys])
+  · rename_i hne
+    have := hd (by simpa using hne)
+    simpa [compsOf, hf] using this
+
+/-! ## working directory -/
+
+/-- **A relative href that does not resolve from the working directory resolves against the including
+    file's directory.** -/
+theorem c06_resolves_against_including_dir (fs : FS) (cwd base : Path) (h : List String)
+    (hno : fs (norm (join cwd h)) = none) : resolveHref fs cwd base h = norm (join base h) := by
+  simp [resolveHref, hno]
+
+/-- an absolute href denotes the same file from everywhere -/
+theorem c06_absolute_href (fs : FS) (cwd base : Path) (h : List String) (ha : isAbs h = true) :
+    resolveHref fs cwd base h = norm h := by
+  simp [resolveHref, join, ha]
+
+/-- reachability when every href is taken relative to the including file's directory -/
+inductive ReachB (fs : FS) : Path → Path → Prop where
+  | refl (p : Path) : ReachB fs p p
+  | step {p q : Path} {file : File} {h : List String} :
+      ReachB fs p q → fs q = some file → h ∈ file.hrefs → ReachB fs p (norm (join q.dropLast h))
+
+/-- no href of a file reachable from `p` resolves from `cwd` (hrefs that are absolute resolve from anywhere
+    and are exempt: they denote the same file from every working directory) -/
+def NoCwdHit (fs : FS) (cwd p : Path) : Prop :=
+  ∀ q file, ReachB fs p q → fs q = some file → ∀ h ∈ file.hrefs, isAbs h = true ∨ fs (norm (join cwd h)) = none
+
+theorem resolve_of_noHit (fs : FS) (cwd base : Path) (h : List String)
+    (hh : isAbs h = true ∨ fs (norm (join cwd h)) = none) : resolveHref fs cwd base h = norm (join base h) := by
+  rcases hh with ha | hn
+  · simp [resolveHref, join, ha]
+  · simp [resolveHref, hn]
+
+theorem step_congr (sh : Bool) (fs : FS) (cwd₁ cwd₂ base : Path) (rec₁ rec₂ : Path → List Path → Res)
+    (acc : Res) (h : List String)
+    (hres : resolveHref fs cwd₁ base h = resolveHref fs cwd₂ base h)
+    (hrec : ∀ al, rec₁ (resolveHref fs cwd₂ base h) al = rec₂ (resolveHref fs cwd₂ base h) al) :
+    step sh fs cwd₁ base rec₁ acc h = step sh fs cwd₂ base rec₂ acc h := by
+  unfold step
+  rw [hres]
+  cases acc with
+  | ok al l d => simp only [hrec]
+  | _ => rfl
+
+/-- **Working-directory independence.** From two working directories from which no href of a file reachable
+    from `p` resolves, reading `p` gives the same result (document, order, log, errors) — for every marked
+    list, every amount of fuel, both ways of handling HDF5 includes. -/
+theorem c06_cwd_independent (sh : Bool) (fs : FS) (cwd₁ cwd₂ : Path) (p : Path)
+    (h₁ : NoCwdHit fs cwd₁ p) (h₂ : NoCwdHit fs cwd₂ p) :
+    ∀ fuel q al, ReachB fs p q → visit sh fs cwd₁ fuel q al = visit sh fs cwd₂ fuel q al := by
   intro fuel
   induction fuel with
-  | zero => intro p al; rfl
+  | zero => intro q al _; rfl
   | succ f ih =>
-    intro p al
+    intro q al hq
     unfold visit
-    cases hp : fs p with
+    cases hp : fs q with
     | none => rfl
     | some file =>
       simp only
-      have hrec : visit fs cwd₁ f = visit fs cwd₂ f := by funext q a; exact ih q a
       have : ∀ (hs : List (List String)), (∀ h ∈ hs, h ∈ file.hrefs) → ∀ acc,
-          hs.foldl (step fs cwd₁ p.dropLast (visit fs cwd₁ f)) acc = hs.foldl (step fs cwd₂ p.dropLast (visit fs cwd₂ f)) acc := by
+          hs.foldl (step sh fs cwd₁ q.dropLast (visit sh fs cwd₁ f)) acc =
+            hs.foldl (step sh fs cwd₂ q.dropLast (visit sh fs cwd₂ f)) acc := by
         intro hs
         induction hs with
         | nil => intro _ acc; rfl
         | cons h hs ihs =>
           intro hmem acc
           simp only [List.foldl_cons]
-          have e : step fs cwd₁ p.dropLast (visit fs cwd₁ f) acc h = step fs cwd₂ p.dropLast (visit fs cwd₂ f) acc h := by
-            have r1 : resolveHref fs cwd₁ p.dropLast h = norm (p.dropLast ++ h) := by
-              simp [resolveHref, h₁ p file hp h (hmem h (by simp))]
-            have r2 : resolveHref fs cwd₂ p.dropLast h = norm (p.dropLast ++ h) := by
-              simp [resolveHref, h₂ p file hp h (hmem h (by simp))]
-            unfold step
-            rw [r1, r2, hrec]
+          have hin : h ∈ file.hrefs := hmem h (by simp)
+          have r1 := resolve_of_noHit fs cwd₁ q.dropLast h (h₁ q file hq hp h hin)
+          have r2 := resolve_of_noHit fs cwd₂ q.dropLast h (h₂ q file hq hp h hin)
+          have e : step sh fs cwd₁ q.dropLast (visit sh fs cwd₁ f) acc h =
+              step sh fs cwd₂ q.dropLast (visit sh fs cwd₂ f) acc h := by
+            apply step_congr
+            · rw [r1, r2]
+            · intro al'
+              rw [r2]
+              exact ih _ al' (ReachB.step hq hp hin)
           rw [e]
           exact ihs (fun h' hh' => hmem h' (by simp [hh'])) _
       exact this file.hrefs (fun _ hh => hh) _
 
-/-! ### witnesses -/
+theorem c06_cwd_independent_file (sh : Bool) (fs : FS) (cwd₁ cwd₂ : Path) (p : Path)
+    (h₁ : NoCwdHit fs cwd₁ p) (h₂ : NoCwdHit fs cwd₂ p) (fuel : Nat) :
+    readFile sh fs cwd₁ fuel p = readFile sh fs cwd₂ fuel p := by
+  unfold readFile
+  simp only [c06_cwd_independent sh fs cwd₁ cwd₂ p h₁ h₂ fuel p _ (ReachB.refl p)]
+
+/-- string entry point with `base_path`: the hrefs of the string itself and of every file reachable from
+    them must not resolve from either working directory -/
+theorem c06_cwd_independent_string (sh : Bool) (fs : FS) (cwd₁ cwd₂ base : Path) (hrefs : List (List String))
+    (comps : List Comp) (fuel : Nat)
+    (hs₁ : ∀ h ∈ hrefs, isAbs h = true ∨ fs (norm (join cwd₁ h)) = none)
+    (hs₂ : ∀ h ∈ hrefs, isAbs h = true ∨ fs (norm (join cwd₂ h)) = none)
+    (h₁ : ∀ h ∈ hrefs, NoCwdHit fs cwd₁ (norm (join base h)))
+    (h₂ : ∀ h ∈ hrefs, NoCwdHit fs cwd₂ (norm (join base h))) :
+    readString sh fs cwd₁ base fuel hrefs comps = readString sh fs cwd₂ base fuel hrefs comps := by
+  unfold readString
+  have : ∀ (hs : List (List String)), (∀ h ∈ hs, h ∈ hrefs) → ∀ acc,
+      hs.foldl (step sh fs cwd₁ base (visit sh fs cwd₁ fuel)) acc =
+        hs.foldl (step sh fs cwd₂ base (visit sh fs cwd₂ fuel)) acc := by
+    intro hs
+    induction hs with
+    | nil => intro _ acc; rfl
+    | cons h hs ihs =>
+      intro hmem acc
+      simp only [List.foldl_cons]
+      have hin : h ∈ hrefs := hmem h (by simp)
+      have r1 := resolve_of_noHit fs cwd₁ base h (hs₁ h hin)
+      have r2 := resolve_of_noHit fs cwd₂ base h (hs₂ h hin)
+      have e : step sh fs cwd₁ base (visit sh fs cwd₁ fuel) acc h =
+          step sh fs cwd₂ base (visit sh fs cwd₂ fuel) acc h := by
+        apply step_congr
+        · rw [r1, r2]
+        · intro al'
+          rw [r2]
+          exact c06_cwd_independent sh fs cwd₁ cwd₂ _ (h₁ h hin) (h₂ h hin) fuel _ al' (ReachB.refl _)
+      rw [e]
+      exact ihs (fun h' hh' => hmem h' (by simp [hh'])) _
+  exact this hrefs (fun _ hh => hh) _
+
+/-! ## witnesses and examples -/
 
 /-- the two-file cycle `a.nml ↔ b.nml` -/
 def cyc : FS := fun p =>
-  if p = ["a.nml"] then some ⟨[["b.nml"]], [⟨"cells", "ca", "a"⟩]⟩
-  else if p = ["b.nml"] then some ⟨[["a.nml"]], [⟨"cells", "cb", "b"⟩]⟩ else none
+  if p = ["a.nml"] then some ⟨[["b.nml"]], [⟨"cells", .val "ca", "a"⟩]⟩
+  else if p = ["b.nml"] then some ⟨[["a.nml"]], [⟨"cells", .val "cb", "b"⟩]⟩ else none
 
-/-- the loop as it was before the repair (mark after return) exhausts every amount of fuel on the cycle:
-    the defect fixed by the `fix:` commit in `loaders.py` -/
+/-- the loop as it was before the repair 5bb970b (mark after return) exhausts every amount of fuel on the cycle -/
 theorem c06_unfixed_diverges : ∀ f p, p = ["a.nml"] ∨ p = ["b.nml"] → visitOld cyc [] f p [] = .outOfFuel := by
   intro f
   induction f with
@@ -214,14 +486,15 @@ theorem c06_unfixed_diverges : ∀ f p, p = ["a.nml"] ∨ p = ["b.nml"] → visi
   | succ f ih =>
     intro p hp
     rcases hp with rfl | rfl
-    · simp [visitOld, cyc, stepOld, resolveHref, norm, ih ["b.nml"] (Or.inr rfl), (by decide : kindOf ["b.nml"] = .xml)]
-    · simp [visitOld, cyc, stepOld, resolveHref, norm, ih ["a.nml"] (Or.inl rfl), (by decide : kindOf ["a.nml"] = .xml)]
+    · simp [visitOld, cyc, stepOld, resolveHref, join, isAbs, norm, ih ["b.nml"] (Or.inr rfl), (by decide : kindOf ["b.nml"] = .xml)]
+    · simp [visitOld, cyc, stepOld, resolveHref, join, isAbs, norm, ih ["a.nml"] (Or.inl rfl), (by decide : kindOf ["a.nml"] = .xml)]
 
-/-- the repaired loop on the same cycle: both components, once -/
-example : readFile cyc [] 3 ["a.nml"] = .ok [["b.nml"], ["a.nml"]] [⟨"cells", "ca", "a"⟩, ⟨"cells", "cb", "b"⟩] := by
+/-- today's loop on the same cycle: both components, once; both files read once -/
+example : readFile false cyc [] 3 ["a.nml"] =
+    .ok [["b.nml"], ["a.nml"]] [["a.nml"], ["b.nml"]] [⟨"cells", .val "ca", "a"⟩, ⟨"cells", .val "cb", "b"⟩] := by
   decide
 
-/-- hypotheses of `c06_union` are satisfiable on a non-trivial graph (the cycle) -/
+/-- the hypotheses of the theorems are satisfiable on a non-trivial graph (the cycle) -/
 example : H5Leaf cyc := by
   intro p f hp hk
   unfold cyc at hp
@@ -231,20 +504,112 @@ example : H5Leaf cyc := by
     · rename_i e; subst e; exact absurd hk (by decide)
     · cases hp
 
-/-- KNOWN FINDING `C06:cycle-through-hdf5`: an include cycle that passes through an HDF5 file still diverges,
+example : ClosedIn cyc [] [["a.nml"], ["b.nml"]] := by
+  intro p file hp h hh
+  unfold cyc at hp
+  split at hp
+  · rename_i e; subst e; cases hp; simp at hh; subst hh; decide
+  · split at hp
+    · rename_i e; subst e; cases hp; simp at hh; subst hh; decide
+    · cases hp
+
+/-- the diamond of the brief: `top.nml` includes `left/l.nml` and `right/r.nml`, both include
+    `../shared/s.nml`, which holds a `<property>` (no id), a component with an id and one whose id is missing;
+    `l.nml` spells the shared file differently and includes it twice, `s.nml` includes the entry file -/
+def diamond : FS := fun p =>
+  if p = ["top.nml"] then some ⟨[["left", "l.nml"], ["right", "r.nml"]], [⟨"properties", .absent, "top"⟩]⟩
+  else if p = ["left", "l.nml"] then
+    some ⟨[["..", "shared", "s.nml"], ["..", "left", "..", "shared", ".", "s.nml"]], [⟨"cells", .val "c", "l"⟩, ⟨"cells", .unset, "l"⟩]⟩
+  else if p = ["right", "r.nml"] then some ⟨[["", "shared", "s.nml"]], [⟨"cells", .val "c", "r"⟩]⟩
+  else if p = ["shared", "s.nml"] then
+    some ⟨[["..", "top.nml"]], [⟨"properties", .absent, "s"⟩, ⟨"cells", .val "c", "s"⟩, ⟨"cells", .unset, "s"⟩]⟩
+  else none
+
+/-- the shared file is read once and its `<property>` arrives once; `c` and the id-less-by-omission cell are
+    de-duplicated in favour of the first file read; the order is the depth-first one -/
+example : readFile false diamond ["elsewhere"] 5 ["top.nml"] =
+    .ok [["right", "r.nml"], ["shared", "s.nml"], ["left", "l.nml"], ["top.nml"]]
+      [["top.nml"], ["left", "l.nml"], ["shared", "s.nml"], ["right", "r.nml"]]
+      [⟨"properties", .absent, "top"⟩, ⟨"cells", .val "c", "l"⟩, ⟨"cells", .unset, "l"⟩, ⟨"properties", .absent, "s"⟩] := by
+  decide
+
+/-- the working-directory hypothesis is satisfiable on the diamond (which has an absolute href) -/
+example : NoCwdHit diamond ["x", "y"] ["top.nml"] := by
+  intro q file _ hq h hh
+  unfold diamond at hq
+  split at hq
+  · cases hq; simp at hh; rcases hh with rfl | rfl <;> exact Or.inr (by decide)
+  · split at hq
+    · cases hq; simp at hh; rcases hh with rfl | rfl <;> exact Or.inr (by decide)
+    · split at hq
+      · cases hq; simp at hh; subst hh; exact Or.inl (by decide)
+      · split at hq
+        · cases hq; simp at hh; subst hh; exact Or.inr (by decide)
+        · cases hq
+
+/-! ### today's handling of HDF5 includes (`sh = false`): the two open findings -/
+
+/-- KNOWN FINDING `C06:cycle-through-hdf5`: an include cycle that passes through an HDF5 file diverges,
     because the HDF5 parser resolves the includes of its embedded XML with a list of its own. -/
 def h5cyc : FS := fun p =>
   if p = ["m.nml"] then some ⟨[["a.nml.h5"]], []⟩
   else if p = ["a.nml.h5"] then some ⟨[["m.nml"]], []⟩ else none
 
-theorem c06_h5cycle_witness : ∀ f, visit h5cyc [] f ["m.nml"] [["m.nml"]] = .outOfFuel ∧
-    visit h5cyc [] f ["a.nml.h5"] [] = .outOfFuel := by
+theorem c06_h5cycle_witness : ∀ f, visit false h5cyc [] f ["m.nml"] [["m.nml"]] = .outOfFuel ∧
+    visit false h5cyc [] f ["a.nml.h5"] [] = .outOfFuel := by
   intro f
   induction f with
   | zero => exact ⟨rfl, rfl⟩
   | succ f ih =>
     constructor
-    · simp [visit, h5cyc, step, resolveHref, norm, ih.2, (by decide : kindOf ["a.nml.h5"] = .h5)]
-    · simp [visit, h5cyc, step, resolveHref, norm, ih.1, (by decide : kindOf ["m.nml"] = .xml)]
+    · simp [visit, h5cyc, step, resolveHref, join, isAbs, norm, ih.2, (by decide : kindOf ["a.nml.h5"] = .h5)]
+    · simp [visit, h5cyc, step, resolveHref, join, isAbs, norm, ih.1, (by decide : kindOf ["m.nml"] = .xml)]
+
+theorem h5cyc_closed : ClosedIn h5cyc [] [["m.nml"], ["a.nml.h5"]] := by
+  intro p file hp h hh
+  unfold h5cyc at hp
+  split at hp
+  · rename_i e; subst e; cases hp; simp at hh; subst hh; decide
+  · split at hp
+    · rename_i e; subst e; cases hp; simp at hh; subst hh; decide
+    · cases hp
+
+/-- the termination clause at full strength fails for today's code -/
+theorem c06_terminates_today_witness : ¬ c06_terminates_full false := by
+  intro h
+  apply h h5cyc [] [["m.nml"], ["a.nml.h5"]] h5cyc_closed ["m.nml"]
+  have e : entryIsH5 ["m.nml"] = false := by decide
+  simp only [readFile, e]
+  exact (c06_h5cycle_witness _).1
+
+/-- … and holds for the repaired code on the same graph: both files read once -/
+example : readFile true h5cyc [] 3 ["m.nml"] = .ok [["a.nml.h5"], ["m.nml"]] [["m.nml"], ["a.nml.h5"]] [] := by
+  decide
+
+/-- KNOWN FINDING `C06:twice-through-hdf5`: `top.nml` includes `a.nml.h5` and `s.nml`, and `a.nml.h5` includes
+    `s.nml` too -/
+def h5dia : FS := fun p =>
+  if p = ["top.nml"] then some ⟨[["a.nml.h5"], ["s.nml"]], []⟩
+  else if p = ["a.nml.h5"] then some ⟨[["s.nml"]], []⟩
+  else if p = ["s.nml"] then some ⟨[], [⟨"properties", .absent, "s"⟩]⟩ else none
+
+/-- the "every file is read once" clause at full strength, for one way of handling HDF5 includes -/
+def c06_once_full (sh : Bool) : Prop :=
+  ∀ (fs : FS) (cwd : Path) (fuel : Nat) (p : Path) (al' log : List Path) (doc : List Comp),
+    visit sh fs cwd fuel p [p] = .ok al' log doc → log.Nodup
+
+theorem c06_once_repaired : c06_once_full true :=
+  fun fs cwd fuel p al' log doc h => c06_log_nodup true fs cwd (fun e => by cases e) fuel p al' log doc h
+
+/-- today: `s.nml` is read twice and its `<property>` arrives twice -/
+theorem c06_once_today_witness : ¬ c06_once_full false := by
+  intro h
+  have := h h5dia [] 3 ["top.nml"] [["s.nml"], ["a.nml.h5"], ["top.nml"]]
+    [["top.nml"], ["a.nml.h5"], ["s.nml"], ["s.nml"]] [⟨"properties", .absent, "s"⟩, ⟨"properties", .absent, "s"⟩] (by decide)
+  exact absurd this (by decide)
+
+example : readFile true h5dia [] 3 ["top.nml"] =
+    .ok [["s.nml"], ["a.nml.h5"], ["top.nml"]] [["top.nml"], ["a.nml.h5"], ["s.nml"]] [⟨"properties", .absent, "s"⟩] := by
+  decide
 
 end NmlVerif.Include
